@@ -1,0 +1,78 @@
+//go:build verif
+
+// Contracts for package circularbuffer (comment-only; read by /verif/engine, never compiled into the package).
+
+package circularbuffer
+
+//@ pred RingSize(start, end, full, maxSize) := ite(end < start, maxSize - start + end, ite(end == start, ite(full, maxSize, 0), end - start))
+//@
+//@ pred Inv(q) := q != nil && q.maxSize >= 1 && len(q.values) == q.maxSize && cap(q.values) == q.maxSize && !isnil(q.values)
+//@     && 0 <= q.start && q.start < q.maxSize && 0 <= q.end && q.end < q.maxSize
+//@     && q.size == RingSize(q.start, q.end, q.full, q.maxSize) && (q.full ==> q.end == q.start)
+//@
+//@ -- abstract view: the queue content oldest first
+//@ pred Seq(q) := mklseq(q.size, \i. q.values[(q.start + i) % q.maxSize])
+//@
+//@ pred Unchanged(q) := q.start == old(q.start) && q.end == old(q.end) && q.full == old(q.full) && q.size == old(q.size)
+//@     && q.maxSize == old(q.maxSize) && q.values == old(q.values) && Seq(q) == old(Seq(q))
+
+//@ func New
+//@   panics-iff maxSize < 1
+//@   ensures [C05 C15 C17] Inv(result) && fresh(result) && result.maxSize == maxSize && len(Seq(result)) == 0
+
+//@ func Queue.Enqueue
+//@   requires Inv(queue)
+//@   modifies queue.start, queue.end, queue.full, queue.size, elems(queue.values)
+//@   ensures [C05 C15 C17] inv: Inv(queue) && queue.maxSize == old(queue.maxSize) && queue.values == old(queue.values)
+//@   ensures [C05] notfull: old(queue.size) < old(queue.maxSize) ==> Seq(queue) == old(Seq(queue)) ++ [value]
+//@   ensures [C05] full: old(queue.size) == old(queue.maxSize) ==> Seq(queue) == old(Seq(queue))[1:] ++ [value]
+
+//@ func Queue.Dequeue
+//@   requires Inv(queue)
+//@   modifies queue.start, queue.full, queue.size
+//@   ensures [C05 C15 C17] inv: Inv(queue) && queue.maxSize == old(queue.maxSize) && queue.values == old(queue.values) && queue.end == old(queue.end)
+//@   ensures [C05] empty: old(queue.size) == 0 ==> !ok && value == zero(value) && Seq(queue) == old(Seq(queue)) && queue.start == old(queue.start) && queue.full == old(queue.full)
+//@   ensures [C05] nonempty: old(queue.size) > 0 ==> ok && value == old(Seq(queue))[0] && Seq(queue) == old(Seq(queue))[1:]
+
+//@ func Queue.Peek
+//@   requires Inv(queue)
+//@   modifies nothing
+//@   ensures [C05 C18] queue.size == 0 ==> !ok && value == zero(value)
+//@   ensures [C05 C18] queue.size > 0 ==> ok && value == Seq(queue)[0]
+
+//@ func Queue.Empty
+//@   requires Inv(queue)
+//@   modifies nothing
+//@   ensures [C15 C18] result == (len(Seq(queue)) == 0)
+
+//@ func Queue.Full
+//@   requires Inv(queue)
+//@   modifies nothing
+//@   ensures [C05 C18] result == (len(Seq(queue)) == queue.maxSize)
+
+//@ func Queue.Size
+//@   requires Inv(queue)
+//@   modifies nothing
+//@   ensures [C05 C15 C18] result == len(Seq(queue)) && result >= 0 && result <= queue.maxSize
+
+//@ func Queue.Clear
+//@   requires queue != nil && queue.maxSize >= 1
+//@   modifies queue.values, queue.start, queue.end, queue.full, queue.size
+//@   ensures [C05 C15 C16 C17] Inv(queue) && queue.maxSize == old(queue.maxSize) && len(Seq(queue)) == 0 && fresh(queue.values)
+
+//@ func Queue.Values
+//@   requires Inv(queue)
+//@   modifies nothing
+//@   ensures [C05 C15 C16 C18] fresh(result) && seq(result) == Seq(queue)
+//@   loop 1:
+//@     invariant 0 <= i && i <= queue.size && len(values) == queue.size && fresh(values)
+//@     invariant forall j :: 0 <= j && j < i ==> values[j] == Seq(queue)[j]
+//@     decreases queue.size - i
+
+//@ func Queue.withinRange
+//@   inline
+
+//@ func Queue.calculateSize
+//@   requires queue != nil
+//@   modifies nothing
+//@   ensures [C05] result == RingSize(queue.start, queue.end, queue.full, queue.maxSize)
